@@ -127,7 +127,14 @@ fn run_case(out: &mut Out, case: &Value) {
             rb = rb.header("accept-encoding", hv);
         }
     }
+    if let Some(v2) = case.get("ae2").filter(|v| !v.is_null()).map(value_bytes) {
+        if let Ok(hv) = http::HeaderValue::from_bytes(&v2) {
+            rb = rb.header("accept-encoding", hv);   // a second Accept-Encoding field line
+        }
+    }
     let req = rb.body(()).unwrap();
+    // what the crate's own should_gzip says for exactly these headers (C17: "as should_gzip decides")
+    let sg = catch(|| http_serve::should_gzip(req.headers())).unwrap_or(false);
     let built = catch(|| {
         let b = if use_parts {
             let (parts, _) = req.into_parts();
@@ -161,7 +168,7 @@ fn run_case(out: &mut Out, case: &Value) {
     let (parts, body) = resp.into_parts();
     let (h, _) = crate::serve_eng::project_head(parts.status.as_u16(), &parts.headers, &[]);
     let gz = parts.headers.get("content-encoding").map(|v| v.as_bytes() == b"gzip").unwrap_or(false);
-    out.emit(json!({"ev": "build", "panic": false, "h": h, "writer": writer.is_some(), "gzhdr": gz}));
+    out.emit(json!({"ev": "build", "panic": false, "h": h, "writer": writer.is_some(), "gzhdr": gz, "sg": sg}));
 
     let probe = body.verif_probe().expect("streaming body has a probe");
     let wakers: Vec<Arc<IdWaker>> = (0..NWAKERS).map(|_| Arc::new(IdWaker { hits: AtomicUsize::new(0) })).collect();
